@@ -529,10 +529,40 @@ func execFaults(args []string) string {
 		loopDone := make(chan struct{})
 		go func() { conn.ReadLoop(); close(loopDone) }()
 		local.Stall()
-		_ = conn.SetWriteDeadline(time.Now().Add(80 * time.Millisecond))
+		late := len(args) > 2 && args[2] == "late"
+		if !late {
+			_ = conn.SetWriteDeadline(time.Now().Add(80 * time.Millisecond))
+		}
 		wdone := make(chan error, 1)
 		go func() { wdone <- conn.WriteMessage(gws.OpcodeText, bytes.Repeat([]byte("x"), 2000)) }()
 		v := ""
+		if late {
+			// the writer is already stalled (holding the write lock) when a watchdog goroutine bounds it with a deadline:
+			// the deadline must reach the transport at once
+			if !local.WaitStalled(1, 2*time.Second) {
+				return "bad-op writer-did-not-stall"
+			}
+			sdone := make(chan struct{})
+			go func() {
+				if args[1] == "s" {
+					_ = conn.SetWriteDeadline(time.Now().Add(60 * time.Millisecond))
+				} else {
+					_ = conn.SetDeadline(time.Now().Add(60 * time.Millisecond))
+				}
+				close(sdone)
+			}()
+			select {
+			case <-sdone:
+			case <-time.After(1500 * time.Millisecond):
+				v = "deadline-call-blocked-behind-stalled-writer"
+				local.Unstall()
+				_ = local.Close()
+				<-sdone
+				<-wdone
+				settle(2 * time.Second)
+				return v
+			}
+		}
 		select {
 		case e := <-wdone:
 			if e == nil {
@@ -815,6 +845,7 @@ func genFaults(g *Gen) {
 	g.Emit("faults stall-readloop")
 	for _, role := range []string{"s", "c"} {
 		g.Emit("faults deadline-stall %s", role)
+		g.Emit("faults deadline-stall %s late", role)
 		for _, comp := range []string{"0", "1"} {
 			for k := 0; k < 5; k++ {
 				g.Emit("faults file-fault %s %s %d", role, comp, k)
